@@ -74,16 +74,21 @@ def histogram_keys(case, mr):
 
 
 CLAIM = {
-    'text': 'Coq theorems (Properties_C03.v): acceptance does not depend on the spelling (corollary of the C01 '
-            'simulation theorem), one use is accepted when each rule that concerns it holds at that point (rule by '
-            'rule: not deprecated, cardinality, not excluded earlier, handler constraints, checks/format/conversion), '
-            'the end-of-line rules are exactly the final checks; the pinned notification by spelling is proved to '
-            'reject a valid line (C03_pinned_notify_refuted) and was repaired. Model tied to the code by '
-            'correspondence on valid lines in configurations with many unused definitions.',
-    'note': 'staged like C01; "valid" in the theorem is the conjunction of the per-rule premises, not one closed '
-            'predicate over abstract lines. trusted: Coq kernel, extraction, hand-written model validated by '
-            'correspondence',
-    'technique': 'Coq proof (per-rule acceptance lemmas + spelling independence by simulation) + model/implementation '
-                 'correspondence on generated valid lines',
-    'design_ref': 'DESIGN.md section 5, C01-C03',
+    'text': 'Coq theorems (Properties_C03.v): completeness on the scalar fragment - a command line whose abstract '
+            'content obeys every declared rule (record `valid`: known keys, values that pass checks and convert, '
+            'uses within the cardinality, no use after an excluder, every required argument used afterwards, all_of / '
+            'any_of / one_of met, mandatory arguments used) is accepted in EVERY legal spelling, whatever else is '
+            'defined in the handler (C03_valid_line_accepted, by invariants over the run: provenance of the pending '
+            'constraint entries, counters, handler-constraint tracking); acceptance is spelling independent '
+            '(corollary of the C01 simulation theorem); per-rule acceptance lemma for one use; the pinned '
+            'notification by spelling is proved to reject a valid line (C03_pinned_notify_refuted) and was repaired. '
+            'Model tied to the code by correspondence on valid lines in configurations with many unused definitions '
+            'and an exhaustive small-scope block for requirements named by short and long key.',
+    'note': 'the completeness theorem covers flags, int, string and optional<int> destinations (vectors, level '
+            'counters, differ/disjoint and the spellings outside ArgH/Spell.v by the tie only) and assumes that '
+            'requires/excludes lists name each argument in one way (specs_canonical; the other case is in the tie). '
+            'trusted: Coq kernel, extraction, hand-written model validated by correspondence',
+    'technique': 'Coq proof (completeness by run invariants + spelling independence by simulation) + '
+                 'model/implementation correspondence on generated valid lines',
+    'design_ref': 'DESIGN.md section 5 (C01-C03) and 12.2',
 }
